@@ -132,7 +132,11 @@ class CollectionPipelineRule(BaseLintRule):  # thailint: ignore[srp,dry]
         for key in ("collection_pipeline", "collection-pipeline", "pipeline"):
             if isinstance(config_dict.get(key), dict):
                 return CollectionPipelineConfig.from_dict(config_dict[key])
-        return CollectionPipelineConfig.from_dict(config_dict)
+        # No section of its own: the linter's keys may sit at the top level, but the top-level
+        # "ignore" list is the repository's (gitignore semantics, applied by the orchestrator),
+        # not this linter's substring list
+        own_keys = {key: value for key, value in config_dict.items() if key != "ignore"}
+        return CollectionPipelineConfig.from_dict(own_keys)
 
     def _is_file_ignored(self, context: BaseLintContext, config: CollectionPipelineConfig) -> bool:
         """Check if file matches ignore patterns.
